@@ -100,8 +100,8 @@ const rule = "Sorted built by NewSorted/NewSortedOrdered from explicit raw value
 	"Strict orders additionally: Get(Add(v)) == v, Index == first position or -1, Contains <=> Index != -1, Remove(present) returns a position that held v, Remove(absent) == -1 without panic. " +
 	"All orders: Get/RemoveAt act on exactly position i and panic outside [0,Len). "
 
-const ruleSmallNT = "non-trivial = the history has a duplicate Add, a Remove of an absent value, an out-of-range Get or RemoveAt, and a RemoveAt strictly inside (0 < i < Len-1)"
-const ruleBigNT = "non-trivial = the slice reached >= 32 elements and an element was removed while it held >= 32"
+const ruleNT = "non-trivial = the history has a duplicate Add, a Remove of an absent value, an out-of-range Get or RemoveAt, and a RemoveAt strictly inside (0 < i < Len-1), " +
+	"or an element was removed while the slice held >= 32"
 
 type kt struct{ K, T int }
 type myInts []int
@@ -744,14 +744,10 @@ func run[E comparable](c Case, e env[E]) pbt.Outcome {
 
 	occ := make([]int, len(c.Ops))
 	rounds := mod(c.Rounds, maxRepeat)
-	big := len(c.Bulk) > 0 || rounds > 0
 	steps := 0
 	for r := 0; r <= rounds; r++ {
 		for i, op0 := range c.Ops {
 			reps := mod(op0.R, maxRepeat)
-			if reps > 0 {
-				big = true
-			}
 			for j := 0; j <= reps; j++ {
 				op := op0
 				op.A = op0.A + occ[i]*op0.S
@@ -769,11 +765,7 @@ func run[E comparable](c Case, e env[E]) pbt.Outcome {
 	}
 
 	out := pbt.Outcome{Evals: evals}
-	if big {
-		out.NonTrivial = maxLen >= 32 && removedBig
-	} else {
-		out.NonTrivial = dupAdd && remAbsent && (oobGet || oobRemoveAt) && ratMid
-	}
+	out.NonTrivial = (dupAdd && remAbsent && (oobGet || oobRemoveAt) && ratMid) || removedBig
 	lab := func(cond bool, l string) {
 		if cond {
 			out.Labels = append(out.Labels, l)
@@ -883,8 +875,9 @@ var smallVals = []int{0, 0, 0, 0, 1, 2, 3, 30}
 
 func genCase(t *rapid.T, orders []string) Case {
 	c := Case{Order: rapid.SampledFrom(orders).Draw(t, "order"), Vals: rapid.SampledFrom(smallVals).Draw(t, "vals")}
-	maxInit := rapid.SampledFrom([]int{10, 10, 10, 10, 10, 10, 10, 44}).Draw(t, "maxinit") // > 20: past sort.Stable's insertion-sort blocks
-	c.Init = rapid.SliceOfN(rapid.IntRange(0, 62), 0, maxInit).Draw(t, "init")
+	// one case in eight: 21..44 initial values (past the insertion-sort blocks of sort.Stable)
+	initLen := rapid.SampledFrom([][2]int{{0, 10}, {0, 10}, {0, 10}, {0, 10}, {0, 10}, {0, 10}, {0, 10}, {21, 44}}).Draw(t, "initlen")
+	c.Init = rapid.SliceOfN(rapid.IntRange(0, 62), initLen[0], initLen[1]).Draw(t, "init")
 	if c.Init == nil {
 		c.Init = []int{}
 	}
@@ -905,19 +898,19 @@ func genCase(t *rapid.T, orders []string) Case {
 var strictOrders = []string{"int", "named", "desc", "str", "edge", "float", "lex", "unit", "ifdesc", "ifstr", "iffloat", "ifweird", "ifptr"}
 var weakOrders = []string{"weak", "ifweak"}
 
-const ruleSmall = "SMALL histories: 0..10 (one case in eight: 0..44) explicit initial values, raw x in 0..62, Vals in {7,1,2,3,30}, 0..3 spare; <= 40 ops, one op in 16 repeated 2, 3, 6 or 41 times. "
+const ruleSmall = "SMALL histories: 0..10 (one case in eight: 21..44) explicit initial values, raw x in 0..62, Vals in {7,1,2,3,30}, 0..3 spare; <= 40 ops, one op in 16 repeated 2, 3, 6 or 41 times. "
 
 var specStrict = pbt.Register(&pbt.Spec[Case]{
 	Property: "C07", Name: "C07.strict",
 	Rule: "rapid: strict total orders consistent with == — int, named slice type, descending, strings, ints at the ends of the int range, floats with -0.0/+0.0/Inf/denormal, lexicographic structs, zero-size struct{}, " +
-		"and slice types that carry their OWN differing sort.Interface (sort.IntSlice/StringSlice/Float64Slice with a descending less, user types with value- and pointer-receiver methods); " + ruleSmall + rule + ruleSmallNT,
+		"and slice types that carry their OWN differing sort.Interface (sort.IntSlice/StringSlice/Float64Slice with a descending less, user types with value- and pointer-receiver methods); " + ruleSmall + rule + ruleNT,
 	Gen: func(t *rapid.T) Case { return genCase(t, strictOrders) },
 	Run: Run, Quick: 30000, Thorough: 200000,
 })
 
 var specWeak = pbt.Register(&pbt.Spec[Case]{
 	Property: "C07", Name: "C07.weak",
-	Rule: "rapid: weak order on {K,T} comparing K only, over []kt and over a named slice type whose own sort.Interface compares T (first and last sentence of the statement only: the position of an added element among equivalents, and which equivalent element Remove takes or whether it finds one, are free); " + ruleSmall + rule + ruleSmallNT,
+	Rule: "rapid: weak order on {K,T} comparing K only, over []kt and over a named slice type whose own sort.Interface compares T (first and last sentence of the statement only: the position of an added element among equivalents, and which equivalent element Remove takes or whether it finds one, are free); " + ruleSmall + rule + ruleNT,
 	Gen:  func(t *rapid.T) Case { return genCase(t, weakOrders) },
 	Run:  Run, Quick: 15000, Thorough: 100000,
 })
